@@ -42,6 +42,8 @@ def main():
             if rc:
                 return {"build_rc": rc, "out": out[-800:]}
             exe = "./run.sh" if os.path.exists(os.path.join(demo_dir, "run.sh")) else "./demo"
+            if exe == "./run.sh" and "${1:-" in open(os.path.join(demo_dir, "run.sh")).read():
+                exe = "./run.sh 1"  # the script's own repeat count: one demo run per invocation here
             if exe == "./demo" and not os.path.exists(os.path.join(demo_dir, "demo")):
                 # the agent's build script put the binary elsewhere: take its -o argument
                 import re
@@ -52,7 +54,7 @@ def main():
             runs = int(os.environ.get("CONFIRM_RUNS", "5"))
             last = ""
             for _ in range(runs):
-                rc, out = sh("timeout 120 %s" % exe, cwd=demo_dir, timeout=200)
+                rc, out = sh("timeout 300 %s" % exe, cwd=demo_dir, timeout=400)
                 if rc != 0:
                     fails += 1
                     last = out[-400:]
